@@ -13,6 +13,8 @@
      3 no_write_outside_txn  4 end_reaches_coordinator. *)
 From Coq Require Import ZArith List Bool Arith.
 From Verif Require Import Imp TxnTable C16_TxnApi C07_Txn C07_client C07_env C07_atomic C07_misc C07_order.
+From Verif Require DispatchActs TxnInitPidDispatch TxnAddPartitionsDispatch TxnAddOffsetsDispatch
+  TxnOffsetCommitDispatch TxnEndDispatch C16_dispatch.
 Import ListNotations.
 Local Open Scope nat_scope.
 
@@ -231,6 +233,33 @@ Proof.
   - exact end_acknowledged_completes.
 Qed.
 Print Assumptions c07_retriable_eventually_ends_partial.
+
+(* the retriable coordinator conditions of the property's quantifier (coordinator moved or not available,
+   COORDINATOR_LOAD_IN_PROGRESS, CONCURRENT_TRANSACTIONS, unknown topic, request timed out) are retried
+   after a backoff by every transactional handler - never fatal, never abortable - and a moved coordinator
+   is rediscovered.  The chains are regenerated from sender.py on every run (gen/Txn*Dispatch.v). *)
+Theorem c07_source_retriable_are_retried :
+  (forall c, In c C16_dispatch.retriable_coord ->
+     C16_dispatch.tclass_eqb (C16_dispatch.classify (TxnInitPidDispatch.txnInitPidDispatch c)) C16_dispatch.TRetry = true) /\
+  (forall c b, In c C16_dispatch.retriable_add_partitions ->
+     C16_dispatch.tclass_eqb (C16_dispatch.classify (TxnAddPartitionsDispatch.txnAddPartitionsDispatch c b)) C16_dispatch.TRetry = true) /\
+  (forall c, In c C16_dispatch.retriable_coord ->
+     C16_dispatch.tclass_eqb (C16_dispatch.classify (TxnAddOffsetsDispatch.txnAddOffsetsDispatch c)) C16_dispatch.TRetry = true) /\
+  (forall c, In c C16_dispatch.retriable_offset_commit ->
+     C16_dispatch.tclass_eqb (C16_dispatch.classify (TxnOffsetCommitDispatch.txnOffsetCommitDispatch c)) C16_dispatch.TRetry = true) /\
+  (forall c, In c C16_dispatch.retriable_coord ->
+     C16_dispatch.tclass_eqb (C16_dispatch.classify (TxnEndDispatch.txnEndDispatch c)) C16_dispatch.TRetry = true).
+Proof. exact C16_dispatch.retriable_are_retried. Qed.
+Print Assumptions c07_source_retriable_are_retried.
+
+Theorem c07_source_moved_coordinator_is_rediscovered : forall c, In c [15; 16]%Z ->
+  DispatchActs.has DispatchActs.ACoordinatorDead (TxnInitPidDispatch.txnInitPidDispatch c) = true /\
+  (forall b, DispatchActs.has DispatchActs.ACoordinatorDead (TxnAddPartitionsDispatch.txnAddPartitionsDispatch c b) = true) /\
+  DispatchActs.has DispatchActs.ACoordinatorDead (TxnAddOffsetsDispatch.txnAddOffsetsDispatch c) = true /\
+  DispatchActs.has DispatchActs.ACoordinatorDead (TxnOffsetCommitDispatch.txnOffsetCommitDispatch c) = true /\
+  DispatchActs.has DispatchActs.ACoordinatorDead (TxnEndDispatch.txnEndDispatch c) = true.
+Proof. exact C16_dispatch.coordinator_errors_rediscover. Qed.
+Print Assumptions c07_source_moved_coordinator_is_rediscovered.
 
 (* ===== non-vacuity: a healthy run satisfies the obligations ====================================== *)
 (* begin; send(p0); send_offsets; commit — with a lost AddPartitionsToTxn reply and a retried batch *)
